@@ -5,6 +5,7 @@ import CuqiVerif.Model.C20
 import CuqiVerif.Model.C03
 import CuqiVerif.Model.C03_gallery
 import CuqiVerif.Model.C03_glue
+import CuqiVerif.Model.C03_gaussform
 open CuqiVerif CuqiVerif.Proto CuqiVerif.C03 CuqiVerif.RExpr
 
 /-!
@@ -37,10 +38,11 @@ Line protocol of the C03 driver (one line in, one line out).  Values are printed
   galnames                             -> names with a branch in DistributionGallery.__init__
   glue <rep> <c> <x>                   -> `<wrt_par> <wrt>`: what Model.gradient hands to geometry.gradient / _gradient_func
         rep ∈ ndarray|cuqi-par|cuqi-fun|cuqi-other|funvals; geometry par2fun = c*p (Model/C03_glue)
+  glue2 <rep> <E> <d> <Fm> <x>         -> same for the affine geometry par2fun = E p + d, fun2par = Fm (f - d)
+  gradout <needsF2p> <ok|ni|ve> <hasGrad> <samples> <rangeId> <domHasGrad> <domId> <dirCuqi>  -> value-ndarray|value-cuqiarray|ValueError|NotImplementedError
 -/
 
-def fn (l : List Rat) : Nat → Rat := fun i => l.getD i 0
-def fn2 (m : List (List Rat)) : Nat → Nat → Rat := fun i j => (m.getD i []).getD j 0
+-- `fn`, `fn2`, `gaussForm`, `gaussGradOut` … : Model/C03_gaussform.lean
 
 def fmtQ (q : Rat) : String := "q:" ++ fmtRatS q
 def fmtQs (l : List Rat) : String := if l.isEmpty then "_" else ",".intercalate (l.map fmtQ)
@@ -97,63 +99,7 @@ def stepIid (fam : String) (x p1 p2 p3 : List Rat) : String :=
     let d := comps.map fun c => evalStr c.2.2 (deriv 0 c.1)
     s!"value {floatStr logd} {",".intercalate g} {",".intercalate d}"
 
-/-! Gaussian forms -/
-def isDiagonal (M : QMat.Mat) : Bool :=
-  (List.range M.length).all fun i => (List.range M.length).all fun j => i = j || QMat.entry M i j = 0
-
-def isPD (M : QMat.Mat) : Bool :=
-  (List.range M.length).all fun k =>
-    QMat.det ((M.take (k + 1)).map (·.take (k + 1))) > 0
-
-inductive Shape | scalar (v : Rat) | vector (v : List Rat) | matrix (M : QMat.Mat) | bad
-
-def shapeOf (n : Nat) (M : QMat.Mat) : Shape :=
-  match M with
-  | [[v]] => .scalar v
-  | [r] => if r.length = n then .vector r else .bad
-  | _ => if M.length = n && M.all (·.length = n) then .matrix M else .bad
-
-/-- (precision used by logpdf `sqrtprecᵀ sqrtprec`, what `self.prec` is) for each form/shape;
-    `none` = the constructor or `_gradient` raises -/
-inductive PrecAttr | mat (P : QMat.Mat) | scalar11 (p : Rat) | vec (p : List Rat) | unavailable
-
-def gaussForm (form : String) (n : Nat) (M : QMat.Mat) : Option (QMat.Mat × PrecAttr) :=
-  let dg (f : Rat → Rat) (v : List Rat) := QMat.diag (v.map f)
-  match form, shapeOf n M with
-  | _, .bad => none
-  | "cov", .scalar v => if v ≤ 0 then none else let P := dg (fun _ => 1 / v) (List.replicate n 0); some (P, .mat P)
-  | "cov", .vector v => if v.any (· ≤ 0) then none else let P := dg (1 / ·) v; some (P, .mat P)
-  | "cov", .matrix C =>
-      if isDiagonal C then
-        let v := (List.range n).map fun i => QMat.entry C i i
-        if v.any (· ≤ 0) then none else let P := dg (1 / ·) v; some (P, .mat P)
-      else if !QMat.isSymmetric C || !isPD C then none
-      else match QMat.inverse C with
-        | some P => if QMat.isInverse C P then some (P, .mat P) else none
-        | none => none
-  | "prec", .scalar p => if p ≤ 0 then none else some (dg (fun _ => p) (List.replicate n 0), .scalar11 p)
-  | "prec", .vector p => if p.any (· ≤ 0) then none else some (dg id p, .vec p)
-  | "prec", .matrix P =>
-      if isDiagonal P then
-        let v := (List.range n).map fun i => QMat.entry P i i
-        if v.any (· ≤ 0) then none else some (dg id v, .mat P)
-      else if !QMat.isSymmetric P || !isPD P then none else some (P, .mat P)
-  | "sqrtcov", .scalar s => if s = 0 then none else let P := dg (fun _ => 1 / (s * s)) (List.replicate n 0); some (P, .mat P)
-  | "sqrtcov", .vector s => if s.any (· = 0) then none else let P := dg (fun t => 1 / (t * t)) s; some (P, .mat P)
-  | "sqrtcov", .matrix R =>
-      if isDiagonal R then
-        let v := (List.range n).map fun i => QMat.entry R i i
-        if v.any (· = 0) then none else let P := dg (fun t => 1 / (t * t)) v; some (P, .mat P)
-      else
-        let C := QMat.mul R (QMat.transpose R)        -- the code forms `sqrtcov @ sqrtcov.T`
-        match QMat.inverse C with
-        | some P => if QMat.isInverse C P then some (P, .mat P) else none
-        | none => none
-  | "sqrtprec", .scalar r => if r = 0 then none else some (dg (fun _ => r * r) (List.replicate n 0), .unavailable)
-  | "sqrtprec", .vector r => if r.any (· = 0) then none else some (dg (fun t => t * t) r, .unavailable)
-  | "sqrtprec", .matrix R => some (QMat.mul (QMat.transpose R) R, .unavailable)   -- `_logupdf` uses `sqrtprec @ dev`
-  | _, _ => none
-
+/-! Gaussian forms: `gaussForm`, `gaussGradOut` of Model/C03_gaussform.lean -/
 def symPart (_n : Nat) (P : QMat.Mat) : Nat → Nat → Rat := fun i j => (QMat.entry P i j + QMat.entry P j i) / 2
 
 def stepGauss (form : String) (x mu : List Rat) (M : QMat.Mat) : String :=
@@ -165,15 +111,10 @@ def stepGauss (form : String) (x mu : List Rat) (M : QMat.Mat) : String :=
   | some (Plog, attr) =>
     let quad := gaussQuad n (fn2 Plog) (fn x) μ
     let demanded := (List.range n).map fun i => gaussGrad n (symPart n Plog) (fn x) μ i
-    match attr with
-    | .unavailable => s!"raise {fmtQ quad} _ {fmtQs demanded}"
-    | .scalar11 p =>
-        if n = 1 then s!"value {fmtQ quad} {fmtQs [-(p * (x.getD 0 0 - μ 0))]} {fmtQs demanded}"
-        else s!"raise {fmtQ quad} _ {fmtQs demanded}"
-    | .vec p => s!"not-vector {fmtQ quad} {fmtQ (gaussGradPrecVectorCode n (fn p) (fn x) μ)} {fmtQs demanded}"
-    | .mat P =>
-        let g := (List.range n).map fun i => gaussGrad n (fn2 P) (fn x) μ i
-        s!"value {fmtQ quad} {fmtQs g} {fmtQs demanded}"
+    match gaussGradOut n attr x μ with
+    | .raises => s!"raise {fmtQ quad} _ {fmtQs demanded}"
+    | .notVector sc => s!"not-vector {fmtQ quad} {fmtQ sc} {fmtQs demanded}"
+    | .value g => s!"value {fmtQ quad} {fmtQs g} {fmtQs demanded}"
 
 def toQ (M : C20.FMat) : QMat.Mat := M.toList.map (fun r => r.map (fun (k : Int) => (k : Rat)))
 
@@ -360,6 +301,22 @@ def step : List String → String
       | some r => s!"{fmtQs (wrtPar (scaledGeo c) r)} {fmtQs (wrtFun (scaledGeo c) r)}"
       | none => "bad-op"
     | _, _ => "bad-op"
+  | ["glue2", rep, E, d, Fm, x] =>
+    match parseMat E, parseVec d, parseMat Fm, parseVec x with
+    | some E, some d, some Fm, some x =>
+      let r : Option (PointRep (List Rat) (List Rat)) := match rep with
+        | "ndarray" => some (.ndarray x) | "cuqi-par" => some (.cuqiParSame x) | "cuqi-fun" => some (.cuqiFunSame x)
+        | "cuqi-other" => some (.cuqiParOther x) | "funvals" => some (.funvals x) | _ => none
+      match r with
+      | some r => s!"{fmtQs (wrtPar (linGeo E d Fm) r)} {fmtQs (wrtFun (linGeo E d Fm) r)}"
+      | none => "bad-op"
+    | _, _, _, _ => "bad-op"
+  | ["gradout", nf, k, hg, sm, rid, dg, did, dc] =>
+    let kind : Option Fun2parKind := match k with | "ok" => some .ok | "ni" => some .notImplemented | "ve" => some .valueError | _ => none
+    match parseB nf, kind, parseB hg, parseB sm, parseB rid, parseB dg, parseB did, parseB dc with
+    | some nf, some kind, some hg, some sm, some rid, some dg, some did, some dc =>
+      (gradientOutcome nf kind hg sm rid dg did dc).toString
+    | _, _, _, _, _, _, _, _ => "bad-op"
   | ["galnames"] => ",".intercalate galleryNames
   | ["idgeoms"] => ",".intercalate identityGeometries
   -- logndense <x> <log x (leaf)> <mu> <cov matrix>  -> `value <grad>` | `nan` | `raise`
